@@ -21,6 +21,8 @@ import DafRel.Lemmas.SqlHistory
 
 namespace DafRel.Props.C08
 
+variable {I : NodeInv}
+
 open DafRel
 
 /-- An accepted iteration-engine history executes without any error. -/
@@ -48,12 +50,12 @@ theorem finish_apply_raises_only_engine_error (σ : Leaves) (t : Rel) (op : UOp)
 /-- **Compiling never fails with an internal error**: every Good Select (the invariant includes the shape
 `to_payload` handles, `Rel.compOK`) whose leaves and processed markers hold payloads compiles. -/
 theorem sql_compile_never_fails (σ : Leaves) (s : SqlState) (fuel : Nat) (S : Rel) (ctr : Nat)
-    (hg : Good σ S) (hs : S.isSelect = true) (hrd : S.PayReady s)
+    (hg : Good I σ S) (hs : S.isSelect = true) (hrd : S.PayReady s)
     (hh : S.height ≤ fuel + 1) : ∃ q c, compileSelect s fuel S ctr = .ok (q, c) :=
   (compile_total σ s fuel).select S ctr hg hs hrd (hg.compOK hs false) hh
 
 theorem sql_payload_never_fails (σ : Leaves) (s : SqlState) (fuel : Nat) (t : Rel) (ctr : Nat)
-    (hg : Good σ t) (hrd : t.PayReady s) (hsh : t.compOK false = true) (hh : t.height ≤ fuel) :
+    (hg : Good I σ t) (hrd : t.PayReady s) (hsh : t.compOK false = true) (hh : t.height ≤ fuel) :
     ∃ p c, toPayload s fuel t ctr = .ok (p, c) ∧ PayDom p t.columns :=
   (compile_total σ s fuel).payload t ctr hg hrd hsh hh
 
@@ -66,6 +68,18 @@ theorem conformed_tree_compiles (σ : Leaves) (s : SqlState) (st : Store) (fuel 
     ∃ q n, compileSelect s defaultFuel (c.get r) 0 = .ok (q, n) := by
   obtain ⟨gc, cok⟩ := (treeBuild_sound σ st fuel).conform r c (raw_good σ r hwf htr hraw) hc
   exact (compile_total σ s defaultFuel).select _ 0 gc cok.ok.isSel hrd (gc.compOK cok.ok.isSel false) hh
+
+/-- The same with the payload hypothesis on the INPUT tree: if every leaf / processed marker of the raw tree holds a
+payload exposing its columns (and the fresh allocation id 0 holds none), the conformed tree compiles - provided its
+joins carry resolved common columns (decidable; what `Join._begin_apply` establishes). -/
+theorem conformed_tree_compiles_of_ready_input (σ : Leaves) (s : SqlState) (st : Store) (fuel : Nat) (r : Rel) (c : Res)
+    (hwf : r.WF) (htr : r.Truthful σ) (hraw : r.RawSql) (hc : conform st fuel r = .ok c)
+    (hrd : r.PayReady s) (h0 : s.payload 0 = none) (hj : (c.get r).joinsResolved = true)
+    (hh : (c.get r).height ≤ defaultFuel + 1) :
+    ∃ q n, compileSelect s defaultFuel (c.get r) 0 = .ok (q, n) := by
+  have gI : Good (domInv s h0) σ r := raw_goodI σ r hwf htr hraw (atomsOK_of_payReady s h0 r hraw hrd)
+  obtain ⟨gc, cok⟩ := (treeBuild_sound σ st fuel).conform r c gI hc
+  exact (compile_total σ s defaultFuel).select _ 0 gc cok.ok.isSel (gc.payReady hj) (gc.compOK cok.ok.isSel false) hh
 
 /-- ... and so does the tree of every construction history inside one SQL engine (any number of unary
 operations, chains, joins, materializations): whatever the factories accepted compiles. -/
